@@ -103,7 +103,10 @@ def solve_goal(goal):
         except SymPyException:
             return False
 
-        return lhs != rhs
+        # The two sides must differ in value, not just in form: require
+        # the difference to be a real constant that is provably nonzero.
+        diff = sympy.simplify(lhs - rhs)
+        return diff.is_real is True and diff.is_zero is False
     elif goal.is_equals():
         try:
             lhs, rhs = convert(goal.lhs), convert(goal.rhs)
